@@ -1,6 +1,7 @@
 package props
 
 import (
+	"os"
 	"fmt"
 	"go/constant"
 	"go/token"
@@ -283,6 +284,19 @@ func (r *Run) panicSitesIn(f *ssa.Function, nilableParams map[*ssa.Parameter]boo
 				return "decoded field " + st.Field(fl.Field).Name(), true
 			}
 		}
+		// the pointer result of a module function that can return, without an error, a pointer it let a JSON decoder
+		// fill in (`var p *T; json.Unmarshal(b, &p)`: the document `null` leaves it nil), or nil itself
+		{
+			cv := v0
+			if ex, ok := cv.(*ssa.Extract); ok && ex.Index == 0 {
+				cv = ex.Tuple
+			}
+			if c, ok := cv.(*ssa.Call); ok {
+				if g := c.Common().StaticCallee(); g != nil && r.P.IsSubject(g) && r.mayReturnNilPointer(g, 0) {
+					return "result of " + core.FuncName(g) + ", which may be nil without an error (decoded into a nil pointer)", true
+				}
+			}
+		}
 		// a pointer value looked up in a map: absent keys and JSON null both give nil
 		lv := v0
 		if ex, ok := lv.(*ssa.Extract); ok && ex.Index == 0 {
@@ -542,6 +556,32 @@ func (r *Run) panicSitesIn(f *ssa.Function, nilableParams map[*ssa.Parameter]boo
 						by = "non-nil: " + short(w, 120)
 					}
 					add(ins, "nilderef", "field access through "+what+": "+short(ff.TB.Of(x.X).String(), 80), by, ff.TB.Of(x.X).Stable())
+				} else if u, isLoad := x.X.(*ssa.UnOp); isLoad && u.Op == token.MUL {
+					// a pointer field of a struct handed in as a parameter: nil if some function of the module that makes
+					// such structs can leave the field nil (the parser leaves Operation.Delta nil for a request without
+					// delta); discharged by a non-nil fact here or at every static call site
+					if bfa, isFA := u.X.(*ssa.FieldAddr); isFA {
+						if prm, isParam := bfa.X.(*ssa.Parameter); isParam {
+							if _, isPtr := x.X.Type().Underlying().(*types.Pointer); isPtr {
+								if st := derefStructT(prm.Type()); st != nil {
+									fv := st.Field(bfa.Field)
+									// (only for functions that are reached through a function value alone: where there are
+									// static call sites, which fields are set together is the callers' invariant — e.g. the
+									// batch files present according to the references — and is left to the rules about it)
+									if !r.jsonNilableFields()[fv] && f.Object() != nil && !f.Object().Exported() && len(r.callersOf(f)) == 0 && r.producersMayLeaveNil(prm.Type(), fv) {
+										at := ff.At(ins)
+										by := ""
+										if w, ok := nonNilFact(at, x.X); ok {
+											by = "non-nil: " + short(w, 120)
+										} else if w, ok := r.callersHaveNonNil(f, ff.TB.Of(x.X)); ok {
+											by = w
+										}
+										add(ins, "nilderef", "field access through "+short(ff.TB.Of(x.X).String(), 80)+", a field of a parameter that the module's constructors of "+prm.Type().String()+" may leave nil", by, ff.TB.Of(x.X).Stable())
+									}
+								}
+							}
+						}
+					}
 				}
 			case *ssa.UnOp:
 				if x.Op == token.MUL {
@@ -636,6 +676,18 @@ func (r *Run) nilableParamsOf(fns []*ssa.Function) map[*ssa.Parameter]bool {
 						if fl, ok := a.(*ssa.Field); ok {
 							if st, _ := fl.X.Type().Underlying().(*types.Struct); st != nil && nilableField(st, fl.Field) {
 								isNilable = true
+							}
+						}
+						// the result of a module function that may hand back a nil pointer without an error
+						{
+							cv := a
+							if ex, ok := cv.(*ssa.Extract); ok && ex.Index == 0 {
+								cv = ex.Tuple
+							}
+							if rc, ok := cv.(*ssa.Call); ok {
+								if g := rc.Common().StaticCallee(); g != nil && r.P.IsSubject(g) && r.mayReturnNilPointer(g, 0) {
+									isNilable = true
+								}
 							}
 						}
 						if !isNilable {
@@ -800,6 +852,11 @@ func (r *Run) checkNoPanic(P string, entries map[string]*ssa.Function, floorFns 
 	fns := r.P.Reachable(es...)
 	r.R.SetCount("E10 entry points", len(es))
 	r.R.SetCount("E10 reachable subject functions", len(fns))
+	if os.Getenv("SIDECHECK_DEBUG_REACH") != "" {
+		for _, f := range fns {
+			fmt.Fprintln(os.Stderr, "reach", core.FuncName(f))
+		}
+	}
 	r.R.List("E10 entry points", names...)
 	r.R.Floor(P+".nopanic.floor", "instance floor", len(fns), floorFns, "subject functions reachable from the untrusted entry points")
 	np := r.nilableParamsOf(fns)
@@ -1064,6 +1121,125 @@ func (r *Run) mayNilValue(ff *core.FnFacts, facts core.FactSet, v ssa.Value, dep
 			}
 		}
 		return false
+	case *ssa.Extract:
+		if c, ok := x.Tuple.(*ssa.Call); ok && x.Index == 0 {
+			if g := c.Common().StaticCallee(); g != nil && r.P.IsSubject(g) {
+				return r.mayReturnNilPointer(g, 0)
+			}
+		}
+	case *ssa.Call:
+		if g := x.Common().StaticCallee(); g != nil && r.P.IsSubject(g) {
+			return r.mayReturnNilPointer(g, 0)
+		}
 	}
 	return false
+}
+
+// mayReturnNilPointer: some return of g whose error result can be nil hands back, as result 0, a pointer that a JSON
+// decoder filled through its address (nil after decoding `null`), or the result of a module function that does.
+func (r *Run) mayReturnNilPointer(g *ssa.Function, depth int) bool {
+	if g == nil || len(g.Blocks) == 0 || depth > 3 || g.Signature.Results().Len() == 0 {
+		return false
+	}
+	if _, isPtr := g.Signature.Results().At(0).Type().Underlying().(*types.Pointer); !isPtr {
+		return false
+	}
+	if r.nilResultCache == nil {
+		r.nilResultCache = map[*ssa.Function]int{}
+	}
+	if v, ok := r.nilResultCache[g]; ok {
+		return v == 1
+	}
+	r.nilResultCache[g] = 0
+	gf := r.E.Facts(g, core.Ctx{})
+	res := false
+	for _, ri := range gf.Returns() {
+		if ri.Class != core.RetSuccess || len(ri.Ret.Results) == 0 && g.Signature.Results().Len() > 1 {
+			continue
+		}
+		for _, l := range phiLeaves(core.RetOp(ri.Ret, 0)) {
+			if ex, ok := l.(*ssa.Extract); ok && ex.Index == 0 {
+				l = ex.Tuple
+			}
+			switch x := l.(type) {
+			case *ssa.UnOp:
+				al, isAl := x.X.(*ssa.Alloc)
+				if x.Op != token.MUL || !isAl || al.Referrers() == nil {
+					continue
+				}
+				for _, rf := range *al.Referrers() {
+					mi, isMI := rf.(*ssa.MakeInterface)
+					if !isMI || mi.Referrers() == nil {
+						continue
+					}
+					for _, mr := range *mi.Referrers() {
+						if c, isC := mr.(*ssa.Call); isC {
+							if sc := c.Common().StaticCallee(); sc != nil && (sc.Name() == "Unmarshal" || sc.Name() == "Decode") {
+								res = true
+							}
+						}
+					}
+				}
+			case *ssa.Call:
+				if h := x.Common().StaticCallee(); h != nil && r.P.IsSubject(h) && r.mayReturnNilPointer(h, depth+1) {
+					res = true
+				}
+			}
+		}
+	}
+	if res {
+		r.nilResultCache[g] = 1
+	}
+	return res
+}
+
+// producersMayLeaveNil: some subject function whose first result has type t can return, without an error, a value
+// whose field fv is nil.
+func (r *Run) producersMayLeaveNil(t types.Type, fv *types.Var) bool {
+	if r.producerMemo == nil {
+		r.producerMemo = map[*types.Var]int{}
+	}
+	if v, ok := r.producerMemo[fv]; ok {
+		return v == 1
+	}
+	r.producerMemo[fv] = 0
+	for _, g := range r.P.SubjectFuncs() {
+		res := g.Signature.Results()
+		if res.Len() == 0 || !types.Identical(res.At(0).Type(), t) || g.Parent() != nil {
+			continue
+		}
+		if r.mayNilResultField(g, core.Ctx{}, fv, 0) {
+			r.producerMemo[fv] = 1
+			return true
+		}
+	}
+	return false
+}
+
+// callersHaveNonNil: every static call site of f in subject code carries `<term with f's parameters replaced by the
+// arguments> != nil`; false when f has no static call site (called through a function value, or exported and unused).
+func (r *Run) callersHaveNonNil(f *ssa.Function, t *core.Term) (string, bool) {
+	callers := r.callersOf(f)
+	if len(callers) == 0 {
+		return "", false
+	}
+	for _, c := range callers {
+		cf := c.Parent()
+		cff := r.E.Facts(cf, core.Ctx{})
+		var actual []*core.Term
+		for _, a := range core.CallArgs(c.Common()) {
+			actual = append(actual, cff.TB.Of(a))
+		}
+		ts := t.Subst(actual).String()
+		found := false
+		for _, fc := range cff.At(c) {
+			if fc.Kind == "cmp" && fc.Op == "!=" && fc.A.String() == ts && fc.B.Name == "nil" {
+				found = true
+			}
+		}
+		if !found {
+			return "", false
+		}
+	}
+	return "caller precondition: every call site has " + t.String() + " != nil", true
 }
